@@ -483,8 +483,8 @@ def run(ctx: Ctx):
         r, o = replay_history(h, ctx)
         runs.append(r)
         obs.append(o)
-    n_random = ctx.n(90, 1500)
-    n_big = ctx.n(25, 400)
+    n_random = ctx.n(450, 7000)
+    n_big = ctx.n(120, 1500)
     for i in range(n_random + n_big):
         r = random_history(ctx, pool, big=i >= n_random)
         try:
